@@ -19,6 +19,8 @@ def describe(o, depth=0):
     if k == 'agg':
         return '%s(%s)' % (short(o.what), ','.join(describe(x, depth + 1) for x in o.ops))
     if k == 'call':
+        if depth < 4 and o.args and len(o.args) <= 2:
+            return 'call:%s(%s)' % (short(o.callee), ','.join(describe(a, depth + 1) for a in o.args))
         return 'call:' + short(o.callee)
     if k == 'const':
         return 'const(%s)' % (o.value,)
@@ -90,6 +92,52 @@ def comparison_edges(body, facts, origin, edges):
         var = var.base
     return var, res
 
+
+
+ORDER_LABELS = {
+    'lt': ({'Less'}), 'le': ({'Less', 'Equal'}), 'gt': ({'Greater'}), 'ge': ({'Greater', 'Equal'}),
+    'eq': ({'Equal'}), 'ne': ({'Less', 'Greater', 'Unordered'}),
+    'Lt': ({'Less'}), 'Le': ({'Less', 'Equal'}), 'Gt': ({'Greater'}), 'Ge': ({'Greater', 'Equal'}),
+    'Eq': ({'Equal'}), 'Ne': ({'Less', 'Greater', 'Unordered'}),
+}
+MIRROR = {'Less': 'Greater', 'Greater': 'Less', 'Equal': 'Equal', 'Unordered': 'Unordered'}
+PARTIAL_ONLY = ('rpki::rtr::Serial', 'rpki::rtr::state::Serial', 'f32', 'f64')
+
+
+def order_edges(origin, edges):
+    """Re-express a bool switch on a comparison `A op B` as a switch on the
+    three/four-valued order relation cmp(A,B)."""
+    if origin.kind == 'call' and len(origin.args) == 2:
+        meth = origin.callee.split('::')[-1]
+        if meth not in ORDER_LABELS or not ('PartialOrd' in origin.callee or 'PartialEq' in origin.callee
+                                            or 'cmp::' in origin.callee):
+            return None
+        a, b = origin.args
+        selfty = origin.term['fn'].get('self') or ''
+        partial = any(norm(selfty).lstrip('&').startswith(t) for t in PARTIAL_ONLY)
+    elif origin.kind == 'bin' and origin.op in ORDER_LABELS:
+        meth = origin.op
+        a, b = origin.a, origin.b
+        partial = False
+    else:
+        return None
+    dom = {'Less', 'Equal', 'Greater'} | ({'Unordered'} if partial else set())
+    tl = set(ORDER_LABELS[meth]) & dom
+    fl = dom - tl
+    da, db = describe(a), describe(b)
+    if da > db:
+        da, db = db, da
+        tl = set(MIRROR[x] for x in tl)
+        fl = set(MIRROR[x] for x in fl)
+    res = {}
+    for tb, labs in edges.items():
+        if 'true' in labs and 'false' not in labs:
+            res[tb] = set(tl)
+        elif 'false' in labs and 'true' not in labs:
+            res[tb] = set(fl)
+        else:
+            return None
+    return 'cmp(%s,%s)' % (da, db), res
 
 
 NONE_PRESERVING = ('Option::and_then', 'Option::map', 'Option::as_ref', 'Option::as_mut', 'Option::as_deref',
@@ -316,6 +364,9 @@ def enumerate_paths(body, facts=None, start=0, max_paths=50000, stop_calls=None)
                 if ce is not None:
                     var, edges = ce
             vp = describe(var)
+            oe = order_edges(var, edges) if var is o else None
+            if oe is not None:
+                vp, edges = oe
             cm = {}
             for v_, labs_, _b in conds:
                 cm[v_] = (cm[v_] & labs_) if v_ in cm else set(labs_)
